@@ -492,6 +492,24 @@ type monitor struct {
 	events   int
 	failures []string
 	opening  map[*litefs.Store]bool
+
+	// application owners that sit on a read lock of a rollback-journal database
+	// (they took SHARED, saw a rollback-mode header under it and hold on): while
+	// one does, LiteFS must not write to that database at all
+	rollbackReaders map[*litefs.Store][]uint64
+}
+
+func (m *monitor) setRollbackReader(s *litefs.Store, owner uint64, on bool) {
+	m.mu.Lock()
+	defer m.mu.Unlock()
+	if m.rollbackReaders == nil {
+		m.rollbackReaders = map[*litefs.Store][]uint64{}
+	}
+	if on {
+		m.rollbackReaders[s] = append(m.rollbackReaders[s], owner)
+	} else {
+		delete(m.rollbackReaders, s)
+	}
 }
 
 var rollbackSet = []litefs.LockType{litefs.LockTypePending, litefs.LockTypeReserved, litefs.LockTypeShared}
@@ -522,6 +540,18 @@ func (m *monitor) hook(db *litefs.DB, kind string, pgno uint32, internal bool) {
 	okR, whyR := held(rollbackSet)
 	okW, whyW := held(walSet)
 	m.mu.Lock()
+	readers := append([]uint64(nil), m.rollbackReaders[db.Store()]...)
+	m.mu.Unlock()
+	for _, o := range readers {
+		if st := db.VerifGuardState(o, litefs.LockTypeShared); st != litefs.RWMutexStateUnlocked {
+			m.mu.Lock()
+			if len(m.failures) < 5 {
+				m.failures = append(m.failures, fmt.Sprintf("internal %s of page %d of %q on node %s while application owner %d holds SHARED (%v) as a reader of the rollback-journal database", kind, pgno, db.Name(), litefs.FormatNodeID(db.Store().ID()), o, st))
+			}
+			m.mu.Unlock()
+		}
+	}
+	m.mu.Lock()
 	m.events++
 	if !okR && !okW && len(m.failures) < 5 {
 		m.failures = append(m.failures, fmt.Sprintf("internal %s of page %d of %q on node %s without the write-lock set (rollback set: %s; WAL set: %s)", kind, pgno, db.Name(), litefs.FormatNodeID(db.Store().ID()), whyR, whyW))
@@ -548,7 +578,7 @@ func genHistPlan(t *rapid.T) HistPlan {
 	for i := 0; i < n; i++ {
 		tx := pager.WalTx{Tx: txs[i]}
 		tx.NoWrite = false
-		k := rapid.SampledFrom([]string{"write", "write", "write", "ckpt", "recover", "import", "halt-tx", "halt-tx", "primary-change", "restart-replica", "reader", "stray-tx"}).Draw(t, "kind")
+		k := rapid.SampledFrom([]string{"write", "write", "write", "ckpt", "recover", "import", "halt-tx", "halt-tx", "primary-change", "restart-replica", "reader", "reader", "recreate", "stray-tx"}).Draw(t, "kind")
 		p.Steps = append(p.Steps, HistStep{Kind: k, Tx: tx, N: rapid.IntRange(0, 3).Draw(t, "n")})
 	}
 	return p
@@ -573,7 +603,20 @@ func runHistPlan(c *pbt.Case, p HistPlan) {
 	if err != nil {
 		c.Failf("C11/setup", "%v", err)
 	}
-	var heldReader *mount.File
+	var heldReader, heldSHM *mount.File
+	var readerOn *cluster.CNode
+	releaseReader := func() {
+		if heldReader == nil {
+			return
+		}
+		mon.setRollbackReader(readerOn.Store, 7100, false)
+		if heldSHM != nil {
+			_ = heldSHM.Close()
+			heldSHM = nil
+		}
+		_ = heldReader.Close()
+		heldReader = nil
+	}
 	for i, st := range p.Steps {
 		primary := cl.Primary()
 		if primary == nil {
@@ -615,10 +658,7 @@ func runHistPlan(c *pbt.Case, p HistPlan) {
 			}
 		case "halt-tx":
 			// the replica forwards one transaction under a halt lock: the primary applies it on its own
-			if heldReader != nil { // its recovery at release waits for readers, which finish eventually
-				_ = heldReader.Close()
-				heldReader = nil
-			}
+			releaseReader() // its recovery at release waits for readers, which finish eventually
 			primary.CloseConns()
 			for w := 0; w < 3000 && primary.Store.SubscriberByNodeID(other.Store.ID()) == nil; w++ {
 				time.Sleep(time.Millisecond)
@@ -656,10 +696,7 @@ func runHistPlan(c *pbt.Case, p HistPlan) {
 				c.Label("stray-tx")
 			}
 		case "primary-change":
-			if heldReader != nil {
-				_ = heldReader.Close()
-				heldReader = nil
-			}
+			releaseReader()
 			for w := 0; w < 3000 && other.Store.ClusterID() == ""; w++ {
 				time.Sleep(time.Millisecond)
 			}
@@ -668,10 +705,7 @@ func runHistPlan(c *pbt.Case, p HistPlan) {
 				c.Label("primary-change")
 			}
 		case "restart-replica":
-			if heldReader != nil {
-				_ = heldReader.Close()
-				heldReader = nil
-			}
+			releaseReader()
 			mon.mu.Lock()
 			mon.opening[other.Store] = true
 			mon.mu.Unlock()
@@ -690,18 +724,60 @@ func runHistPlan(c *pbt.Case, p HistPlan) {
 		case "reader":
 			// an application connection sits on a read lock of the replica while applies arrive
 			if heldReader == nil {
+				if st.N%2 == 0 {
+					_ = cl.WaitConverged(5 * time.Second) // the reader arrives at a quiet moment
+				}
 				if f, err := other.M.Open(7100, dbn); err == nil {
 					if err := f.SetLk(mount.RdLck, 0x40000002, 0x40000002+509); err == nil {
-						heldReader = f
-						c.Label("replica-reader-held")
+						heldReader, readerOn = f, other
+						// what SQLite does next depends on the header it reads under that lock
+						hdr := make([]byte, 100)
+						if n, _ := f.ReadAt(hdr, 0); n >= 20 && hdr[18] == 2 {
+							if sf, _, err := other.M.OpenOrCreate(7100, dbn+"-shm"); err == nil {
+								_ = sf.SetLk(mount.RdLck, 128, 128) // DMS: a WAL connection
+								heldSHM = sf
+							}
+							c.Label("replica-reader-held:wal")
+							if os.Getenv("VERIF_DEBUG") != "" {
+								fmt.Fprintf(os.Stderr, "DEBUG reader wal hdr18=%d pos=%v primarypos=%v\n", hdr[18], other.Pos(dbn), primary.Pos(dbn))
+							}
+						} else if n >= 20 {
+							mon.setRollbackReader(other.Store, 7100, true)
+							c.Label("replica-reader-held:rollback")
+							if os.Getenv("VERIF_DEBUG") != "" {
+								fmt.Fprintf(os.Stderr, "DEBUG reader rollback hdr18=%d pos=%v primarypos=%v\n", hdr[18], other.Pos(dbn), primary.Pos(dbn))
+							}
+						}
 					} else {
+						if os.Getenv("VERIF_DEBUG") != "" {
+							fmt.Fprintf(os.Stderr, "DEBUG reader lock refused %v\n", err)
+						}
 						_ = f.Close()
 					}
 				}
 			} else {
-				_ = heldReader.Close()
-				heldReader = nil
+				releaseReader()
 			}
+		case "recreate":
+			// the application deletes the database and creates it again in the other journal mode
+			releaseReader()
+			primary.CloseConns()
+			if primary.Pos(dbn).TXID == 0 || primary.Store.DB(dbn) == nil {
+				break
+			}
+			if img, ok := cl.Hist.Lookup(dbn, primary.Pos(dbn)); !ok || img.N() == 0 {
+				break
+			}
+			if err := primary.Drop(dbn); err != nil {
+				c.Failf("C11/op-error", "step %d: unlink of the database on the primary refused: %v", i, err)
+			}
+			_ = cl.Hist.Record(dbn, primary.Pos(dbn), ref.NewImage(p.PageSize))
+			if cl.DBs[dbn].JournalMode == pager.WAL {
+				cl.DBs[dbn].JournalMode = pager.Delete
+			} else {
+				cl.DBs[dbn].JournalMode = pager.WAL
+			}
+			c.Labelf("recreate-as:%s", cl.DBs[dbn].JournalMode)
 		}
 		mon.mu.Lock()
 		fails := append([]string(nil), mon.failures...)
@@ -710,9 +786,7 @@ func runHistPlan(c *pbt.Case, p HistPlan) {
 			c.Failf("C11/internal-write-without-locks", "step %d (%s): %s", i, st.Kind, fails[0])
 		}
 	}
-	if heldReader != nil {
-		_ = heldReader.Close()
-	}
+	releaseReader()
 	_ = cl.WaitConverged(10 * time.Second)
 	mon.mu.Lock()
 	events, fails := mon.events, append([]string(nil), mon.failures...)
